@@ -209,9 +209,12 @@ func (cl *compiler) compileBranchStmt(branch *ast.BranchStmt) {
 
 func (cl *compiler) compileExprStmt(stmt *ast.ExprStmt) {
 	if call, ok := stmt.X.(*ast.CallExpr); ok {
-		sig := cl.ctx.Types.TypeOf(call.Fun).(*types.Signature)
-		if sig.Results() != nil {
-			panic(cl.errorf(call, "only void funcs can be used in stmt context"))
+		// The callee can be a value of a named func type or of a type parameter:
+		// its type is not necessarily a signature.
+		if typ := cl.ctx.Types.TypeOf(call.Fun); typ != nil {
+			if sig, ok := typ.Underlying().(*types.Signature); ok && sig.Results() != nil {
+				panic(cl.errorf(call, "only void funcs can be used in stmt context"))
+			}
 		}
 		cl.compileCallExpr(call)
 		return
